@@ -30,9 +30,13 @@ def runs(prop, tier):
          ("blob grammar K=3,T=2 x patterns U, M3, k in {%s}" % ks_q, [["--grammar", "blobs:3:2", "--alpha", a, "--ks", ks_q] for a in ("U", "M3")]),
          ("dense families x U", [["--families", "K:6,K:7,wheel:6,prism:4,petersen,Kb:3:4,grid:3:4,cube:3", "--alpha", "U", "--ks", ks_q]]),
          ("G(5) x {1,100} (extreme weight ratio)", [["--n", 5, "--alpha", "H2", "--ks", ks_q]]),
+         ("edge orientation reversed / alternating: G(0..4) x A3, G(5) x A2", [["--n", n, "--alpha", "A3", "--ks", ks_q, "--orient", o] for n in range(2, 5) for o in (1, 2)] + [["--n", 5, "--alpha", "A2", "--ks", ks_q, "--orient", 1]]),
+         ("theta graphs with chords (11 vertices, many non-spanner edges competing for one heavy edge): edge #0 = 1000, every other edge over {1,2}, both orientations",
+          [["--families", "thetac:3:4", "--alpha", "A2H", "--ks", "2,3", "--wchunks", 32, "--orient", o] for o in (0, 1)]),
          ("fixed menu: 1200 pseudo-random sparse graphs n=8..20 x 3 pseudo-random weightings in 1..9, and x every one-heavy-edge weighting for n <= 12",
           [["--families", lcg_menu((8, 10, 12, 14, 16, 20), (1.3, 1.6, 2.0), 66), "--alpha", "R9x3", "--ks", ks_q],
-           ["--families", lcg_menu((7, 8, 9, 10, 11, 12), (1.3, 1.6, 2.0), 40), "--alpha", "OH", "--ks", ks_q]]),
+           ["--families", lcg_menu((7, 8, 9, 10, 11, 12), (1.3, 1.6, 2.0), 40), "--alpha", "OH", "--ks", ks_q],
+           ["--families", lcg_menu((8, 10, 12, 14, 16, 20), (1.3, 1.6, 2.0), 66), "--alpha", "R9x2", "--ks", ks_q, "--orient", 1]]),
          ("large families (up to 169 vertices; dynamic-bitset validator, Horton reference) x patterns U, M3",
           [["--families", "wheel:80,grid:9:9,cube:6,K:13,brick:8:9,subgrid:6:6,torus:6:6,Kb:8:8,grid:13:13", "--alpha", a, "--ks", ks_t] for a in ("U", "M3")])]
     if tier == "quick":
@@ -43,6 +47,8 @@ def runs(prop, tier):
             ("G(5) x D, k in {%s}" % ks_q, [["--n", 5, "--alpha", "D", "--ks", ks_q]]),
             ("families x A2", [["--families", "wheel:5,wheel:6,prism:3,prism:4,Kb:3:3,cube:3,grid:3:3,petersen,grid:2:5", "--alpha", "A2", "--ks", ks_t]]),
             ("G(6) x U, k in {%s}" % ks_t, [["--n", 6, "--alpha", "U", "--ks", ks_t]]),
+            ("theta graphs with chords, larger", [["--families", "thetac:4:4,thetac:3:5,thetac:4:3,thetac:2:4", "--alpha", "A2H", "--ks", "2,3,4", "--wchunks", 64, "--orient", o] for o in (0, 1, 2)]),
+            ("G(5) x A3 reversed orientation", [["--n", 5, "--alpha", "A3", "--ks", ks_q, "--orient", 1]]),
             ("G(6) x A2, k in {%s}" % ks_q, [["--n", 6, "--alpha", "A2", "--ks", ks_q]])]
 
 
